@@ -507,6 +507,30 @@ def check_arrays(out, facts):
         buf_n = _re.sub(r'cast\((cast\(as_mut_ptr\(dst\)\))\)', r'\1', buf_n)
         if buf_n != 'from_raw_parts_mut(cast(as_mut_ptr(dst)), %s())' % role_name(facts, 'array_bytesize'):
             why.append('bulk read does not cover exactly calculate_array_bytesize::<T, N>() bytes of the destination: ' + buf)
+    # the bulk read is taken only for element types that declare a primitive TYPE_INFO: the condition guarding it is a
+    # function of T::TYPE_INFO that is false for `Unknown` (decided by evaluating the condition arm by arm; a condition
+    # that also consults anything else — sizes, fixed lengths — is not recognised and reported)
+    guards = [x for x in items(t) if x[0] == 'alt' and any(e[0] == 'read' for d, y in x[2] if d == 'true' for e in events(y))]
+    if len(guards) != 1 or not (isinstance(guards[0][1], tuple) and guards[0][1][0] == 'if'):
+        why.append('the bulk read is not guarded by one condition')
+    else:
+        c = strip(guards[0][1][1])
+        if not (isinstance(c, tuple) and c[0] == 'matchval' and isinstance(strip(c[1]), tuple) and strip(c[1])[0] == 'const' and strip(c[1])[1].endswith('TYPE_INFO')):
+            why.append('the bulk read is not guarded by a match on T::TYPE_INFO: ' + sym.vstr(c)[:120])
+        else:
+            seen_unknown = False
+            for d, x in c[2]:
+                lab = d[1] if isinstance(d, tuple) and len(d) > 1 else str(d)
+                val = eval_expr(x, lambda a: None)
+                labs = set(str(lab).split('|'))
+                if labs & {'Unknown', '_'}:
+                    seen_unknown = True
+                    if val is not False:
+                        why.append('the bulk read is reachable for element types without a primitive TYPE_INFO (arm %s => %s)' % (lab, sym.vstr(x)[:80]))
+                elif val not in (True, False):
+                    why.append('bulk condition of arm %s is not a constant: %s' % (lab, sym.vstr(x)[:80]))
+            if not seen_unknown:
+                why.append('the match on TYPE_INFO has no arm for Unknown')
     g = roles(facts).get('array_bytesize')
     if g:
         ev2 = sym.Evaluator(facts)
